@@ -16,7 +16,7 @@ ID = "C10"
 LEVEL = "model_checking"
 MIN_OUTCOMES = 5
 MANIFEST = {
-    'text': 'Complete enumeration of the VCS configuration lattice (thorough: full product incl. all 27 CLI tri-state combinations; quick: one tri-state at a time + a slice of pairs) with hooks {absent, ok, fails, killed by a signal} given by config or on the command line, on the real `update` with a fake git/hg at the subprocess seam, plus single-fault injection at every effect position (each once with a neutral error text and once with the text the real tool prints for the usual cause - tag already exists, nothing to commit, failed to push, not a repository): the ordered effect trace of each run must be exactly the prefix the property prescribes for the effective settings. A seam-conformance pass re-runs ~1,000 configurations with fake executables first on PATH and requires identical command traces (otherwise HARNESS-ERROR, never a violation).',
+    'text': 'Complete enumeration of the VCS configuration lattice (thorough: full product incl. all 27 CLI tri-state combinations; quick: one tri-state at a time + a slice of pairs) with hooks {absent, ok, fails, killed by a signal} given by config or on the command line, `.git` as a directory or as a file (linked work tree), on the real `update` with a fake git/hg at the subprocess seam, plus single-fault injection at every effect position (each once with a neutral error text and once with the text the real tool prints for the usual cause - tag already exists, nothing to commit, failed to push, not a repository): the ordered effect trace of each run must be exactly the prefix the property prescribes for the effective settings. A seam-conformance pass re-runs ~1,000 configurations with fake executables first on PATH and requires identical command traces (otherwise HARNESS-ERROR, never a violation).',
     'note': 'double faults, real hg and non-executable hook scripts are outside the bound; the git command set is executed for real by C08/C11/C12',
     'technique': 'explicit-state exploration of the configuration lattice + single-fault enumeration on the implementation, trace monitors',
 }
